@@ -95,37 +95,79 @@ theorem pass1_monotone (c : Enc) (t : Tree) (st st' : P1) (h : calcTree c st t =
 
 /-- **Total unit length = emitted length.** In a successful `Unit::write` the value stored in the
 unit's initial-length field (`body`) is exactly the number of bytes the unit occupies after that
-field, and patching the references changes no length. -/
+field, patching the references changes no length, and the bytes of earlier units stay as they
+were. -/
 theorem unit_length_exact (e : Endian) (so lso : List Nat) (s s' : Sec) (u : UnitIn) (o : Offs)
     (h : writeUnit e so lso s u = .ok (s', o)) :
     ∃ body lenField, writeInitialLength e u.enc.format body = .ok lenField ∧
       lenField.length = initLenSize u.enc.format ∧
-      s'.info.length = s.info.length + lenField.length + body := by
-  unfold writeUnit at h
-  simp only at h
-  obtain ⟨hdr, _, h⟩ := bind_ok_inv h
-  obtain ⟨p1, _, h⟩ := bind_ok_inv h
-  obtain ⟨em, _, h⟩ := bind_ok_inv h
-  obtain ⟨lf, hlf, h⟩ := bind_ok_inv h
-  obtain ⟨info, hp, h⟩ := bind_ok_inv h
-  simp only [Out.pure_eq, Out.ok.injEq, Prod.mk.injEq] at h
-  obtain ⟨hs, _⟩ := h
-  subst hs
-  obtain ⟨hl, _⟩ := patchUnitRefs_ok _ _ _ _ _ _ hp
-  refine ⟨hdr.length + em.bytes.length, lf, hlf, ?_, ?_⟩
-  · cases hf : u.enc.format with
-    | dwarf32 =>
-      simp only [writeInitialLength, hf] at hlf
-      split at hlf
-      · simp at hlf
-      · exact writeUdata_length _ _ _ _ hlf
-    | dwarf64 =>
-      simp only [writeInitialLength, hf] at hlf
-      obtain ⟨bs, hb, hlf⟩ := bind_ok_inv hlf
-      simp only [Out.pure_eq, Out.ok.injEq] at hlf
-      subst hlf
-      simp [initLenSize, toBytes_length, writeUdata_length _ _ _ _ hb]
+      s'.info.length = s.info.length + lenField.length + body ∧
+      (∀ i, i < s.info.length → s'.info[i]? = s.info[i]?) := by
+  obtain ⟨hdr, p1, em, lf, _, _, _, h4, h5, _, _, _⟩ := writeUnit_inv e so lso s s' u o h
+  obtain ⟨hl, _⟩ := patchUnitRefs_ok _ _ _ _ _ _ h5
+  have hlf := writeInitialLength_length _ _ _ _ h4
+  refine ⟨hdr.length + em.bytes.length, lf, h4, hlf, ?_, ?_⟩
   · simp only [hl, List.length_append]; omega
+  · exact writeUnit_frame e so lso s s' u o h
+
+/-! ## (2b) hence every reference designates the intended entry -/
+
+/-- **Every `UnitRef` placeholder ends up holding the unit offset of the entry it names.**
+After a successful `Unit::write`: for every reference `(pos, id)` that pass 2 recorded, the entry
+`id` was written by pass 2 at some section position `target`, pass 1 had assigned exactly `target`
+to it, and the `word` bytes at `pos` in `.debug_info` are the encoding of `target - unit offset`
+— the value a reader adds to the unit's offset to find the entry.  Bytes of earlier units are not
+touched. (That the *later* cross-unit patching leaves these bytes alone follows from the
+placeholders being disjoint; see `fixups_resolve` for what it writes.) -/
+theorem unit_refs_resolve (e : Endian) (so lso : List Nat) (s s' : Sec) (u : UnitIn) (o : Offs)
+    (hnd : (unitRoot u).ids.Nodup) (h : writeUnit e so lso s u = .ok (s', o)) :
+    ∃ (hdr : Bytes) (p1 : P1) (em : Emit),
+      calcTree u.enc (p1Init (s.info.length + initLenSize u.enc.format + hdr.length) s.info.length u.nEntries)
+        (unitRoot u) = .ok p1 ∧
+      emitTree (unitCtx e so lso u p1) (s.info.length + initLenSize u.enc.format + hdr.length) (unitRoot u) = .ok em ∧
+      o = p1.offs ∧
+      ∀ r ∈ em.urefs, ∃ target, (r.2, target) ∈ em.starts ∧ p1.offs.map r.2 = some target ∧
+        ∀ i, i < u.enc.word → s'.info[r.1 + i]? = (toBytes e u.enc.word (target - s.info.length))[i]? := by
+  obtain ⟨hdr, p1, em, lf, _, h2, h3, h4, h5, _, _, ho⟩ := writeUnit_inv e so lso s s' u o h
+  have hl := writeInitialLength_length _ _ _ _ h4
+  have hpre : (s.info ++ lf ++ hdr).length = s.info.length + initLenSize u.enc.format + hdr.length := by
+    simp [hl]; omega
+  refine ⟨hdr, p1, em, h2, h3, ho, ?_⟩
+  rw [← hpre] at h2 h3
+  exact (unit_refs_resolve' (unitCtx e so lso u p1) (unitRoot u) s.info.length u.nEntries p1 em
+    (s.info ++ lf ++ hdr) s'.info hnd h2 rfl rfl h3 h5).1
+
+/-- **Every cross-unit fix-up ends up holding the section offset of the entry it names.**
+After a successful `Dwarf::write`: `offs[k]` being the final `UnitOffsets` of unit `k` (the very
+table `offsets_exact` is about), every `DebugInfoFixup` `f` queued by any unit — from a
+`DebugInfoRef` attribute or a `DW_OP_call_ref` inside an expression — names a unit that exists and
+an entry that has an offset `off` there, and the `f.size` bytes at `f.pos` of the final
+`.debug_info` are the encoding of `off`.  (Fix-up placeholders never overlap, so none of these
+values is overwritten by another one.) -/
+theorem fixups_resolve (e : Endian) (strs lstrs : StrTab) (units : List UnitIn)
+    (info abbr str lstr : Bytes) (h : writeDwarf e strs lstrs units = .ok (info, abbr, str, lstr)) :
+    ∃ s offs, writeUnits e (strOffsets strs) (strOffsets lstrs) {} units = .ok (s, offs) ∧
+      info.length = s.info.length ∧ abbr = s.abbr ∧
+      ∀ f ∈ s.ifix, ∃ o off, offs[f.unit]? = some o ∧ o.debugInfoOffset f.id = .ok (some off) ∧
+        ∀ i, i < f.size → info[f.pos + i]? = (toBytes e f.size off)[i]? := by
+  unfold writeDwarf at h
+  obtain ⟨⟨s, offs⟩, h1, h⟩ := bind_ok_inv h
+  obtain ⟨info', h2, h⟩ := bind_ok_inv h
+  simp only [Out.pure_eq, Out.ok.injEq, Prod.mk.injEq] at h
+  obtain ⟨hi, ha, _, _⟩ := h
+  subst hi ha
+  have hp := writeUnits_ifix_placed e _ _ units {} s offs h1 (by simp [holesI, Placed])
+  obtain ⟨q1, _, q3⟩ := applyFixups_placed e offs s.ifix s.info info' 0 s.info.length h2 hp
+  exact ⟨s, offs, h1, q3, rfl, q1⟩
+
+/-- **A sibling pointer points behind the subtree.** The `DW_AT_sibling` value an entry with
+children is given is the unit offset of the first byte after everything the entry and its
+subtree emitted — where the next sibling (or the parent's null terminator) starts. -/
+theorem sibling_exact (cx : Ctx) (pos id tag : Nat) (attrs : List (Nat × AttrVal)) (t : Tree)
+    (rest : Forest) (em : Emit) (h : emitTree cx pos (.node id tag true attrs (.cons t rest)) = .ok em) :
+    ∃ code tail, em.bytes = Leb.encodeU code ++
+      toBytes cx.endian cx.enc.word (pos + em.bytes.length - cx.offs.unit) ++ tail :=
+  sibling_value cx pos id tag attrs t rest em h
 
 /-! ## (3) de-duplicating tables -/
 
